@@ -217,11 +217,11 @@ func unmarshalJSONObject(d decoder, r Rule) (Size, error) {
 	unit := (*string)(nil)
 keys:
 	for i := 0; true; i++ {
-		if i > MaxObjectKeys {
-			return 0, fmt.Errorf("%w: %d > %d", ErrObjectTooBig, i, MaxObjectKeys)
-		}
 		if !d.More() {
 			break keys
+		}
+		if MaxObjectKeys != 0 && i >= MaxObjectKeys {
+			return 0, fmt.Errorf("%w: %d > %d", ErrObjectTooBig, i+1, MaxObjectKeys)
 		}
 		t, err := d.Token()
 		if err != nil {
